@@ -33,6 +33,8 @@ pub struct C11 {
     shadow: BTreeMap<Pubkey, Sh>,
     /// pools whose clock is currently behind the last update (back-step fault in effect)
     behind: BTreeMap<Pubkey, bool>,
+    /// the shadow ledger's own "settled up to" time per pool
+    last: BTreeMap<Pubkey, u64>,
 }
 
 fn viol(class: &str, idx: usize, detail: String) -> Violation {
@@ -102,9 +104,10 @@ impl C11 {
                 let Some(sh) = self.shadow.get(&k).cloned() else { continue };
                 let ta = |t: i32| crate::ix::pda_tick_array(&wk, crate::gen::ta_start(t, pool.tick_spacing));
                 let ixn = crate::ix::update_fees_and_rewards(&wk, &k, &ta(pos.lower), &ta(pos.upper));
+                let at = self.last.get(&wk).copied().unwrap_or(pool.reward_last_updated_timestamp).max(pool.reward_last_updated_timestamp);
                 crate::rt::with_ctx(|c| {
                     c.clock = saved_clock;
-                    c.clock.unix_timestamp = pool.reward_last_updated_timestamp as i64;
+                    c.clock.unix_timestamp = at as i64;
                 });
                 let mut f = l.clone();
                 let r = crate::rt::exec_tx_simple(&mut f, &crate::rt::Tx { ixs: vec![ixn] });
@@ -132,8 +135,19 @@ impl C11 {
     }
 
     /// accrual between the pool's previous and new `reward_last_updated_timestamp`
-    fn accrue(&mut self, wk: &Pubkey, pre: &Pool, post: &Pool, pre_l: &crate::rt::Ledger, cov: &mut Coverage) {
-        let (t0, t1) = (pre.reward_last_updated_timestamp, post.reward_last_updated_timestamp);
+    /// `now`: the simulated clock when the instruction is one that settles the pool's rewards up to the present
+    /// (the shadow ledger keeps its own time per pool and does not rely on the timestamp the program stored)
+    fn accrue(&mut self, wk: &Pubkey, pre: &Pool, post: &Pool, pre_l: &crate::rt::Ledger, now: Option<u64>, cov: &mut Coverage) {
+        let (t0, t1) = match now {
+            Some(n) => (self.last.get(wk).copied().unwrap_or(pre.reward_last_updated_timestamp), n),
+            None => (pre.reward_last_updated_timestamp, post.reward_last_updated_timestamp),
+        };
+        if now.is_some() {
+            self.last.insert(*wk, t1.max(t0));
+            if post.reward_last_updated_timestamp != t1 {
+                cov.note("c11_program_timestamp_differs_from_clock_after_settling_instruction");
+            }
+        }
         if t1 <= t0 {
             return;
         }
@@ -261,7 +275,9 @@ impl Monitor for C11 {
                     if post.reward_last_updated_timestamp < pre.reward_last_updated_timestamp {
                         out.push(viol("last_update_moved_back", ev.idx, format!("{} moved the pool's last reward update {} -> {}", c.name(), pre.reward_last_updated_timestamp, post.reward_last_updated_timestamp)));
                     }
-                    self.accrue(&m.pubkey, &pre, &post, v.pre, cov);
+                    let named = ["whirlpool", "whirlpool_one", "whirlpool_two"].iter().any(|n| c.acct(n) == Some(m.pubkey));
+                    let settles = named && TIME_READERS.contains(&c.name()) && ts >= 0;
+                    self.accrue(&m.pubkey, &pre, &post, v.pre, if settles { Some(ts as u64) } else { None }, cov);
                 }
             }
             // 2. credits
